@@ -10,12 +10,87 @@ package main
 import (
 	"fmt"
 	"go/ast"
+	"go/parser"
+	"go/printer"
 	"go/token"
+	"path/filepath"
 	"regexp"
 	"strings"
 
 	"ssvharness/internal/gen"
 )
+
+// srcPkg: the relay files parsed (not type-checked: the extractors are purely syntactic, and type-checking
+// package service from source costs minutes on a loaded machine).
+type srcPkg struct {
+	fset  *token.FileSet
+	files []*ast.File
+}
+
+var relayFiles = []string{"udp.go", "udp_nat.go", "udp_nat_mmsg.go", "udp_session.go", "udp_session_mmsg.go"}
+
+func loadRelayFiles(repo string) (*srcPkg, error) {
+	p := &srcPkg{fset: token.NewFileSet()}
+	for _, n := range relayFiles {
+		f, err := parser.ParseFile(p.fset, filepath.Join(repo, "service", n), nil, parser.ParseComments|parser.SkipObjectResolution)
+		if err != nil {
+			return nil, err
+		}
+		p.files = append(p.files, f)
+	}
+	return p, nil
+}
+
+// Src prints an AST node as source text on one line (canonical gofmt form).
+func (p *srcPkg) Src(n ast.Node) string {
+	var sb strings.Builder
+	printer.Fprint(&sb, p.fset, n)
+	return strings.Join(strings.Fields(sb.String()), " ")
+}
+
+// Func finds the method recv.name; it must be declared exactly once in the relay files.
+func (p *srcPkg) Func(recv, name string) (*ast.FuncDecl, error) {
+	var found []*ast.FuncDecl
+	for _, f := range p.files {
+		for _, d := range f.Decls {
+			fd, ok := d.(*ast.FuncDecl)
+			if !ok || fd.Name.Name != name || fd.Recv == nil || len(fd.Recv.List) != 1 {
+				continue
+			}
+			if strings.TrimPrefix(p.Src(fd.Recv.List[0].Type), "*") == strings.TrimPrefix(recv, "*") {
+				found = append(found, fd)
+			}
+		}
+	}
+	if len(found) != 1 {
+		return nil, fmt.Errorf("service: method %s.%s declared %d times in the relay files", recv, name, len(found))
+	}
+	return found[0], nil
+}
+
+// constInt: a package-level `name = <integer literal>` constant.
+func (p *srcPkg) constInt(name string) (string, error) {
+	for _, f := range p.files {
+		for _, d := range f.Decls {
+			gd, ok := d.(*ast.GenDecl)
+			if !ok || gd.Tok != token.CONST {
+				continue
+			}
+			for _, sp := range gd.Specs {
+				vs := sp.(*ast.ValueSpec)
+				for i, n := range vs.Names {
+					if n.Name == name && i < len(vs.Values) {
+						if bl, ok := vs.Values[i].(*ast.BasicLit); ok && bl.Kind == token.INT {
+							return bl.Value, nil
+						}
+						return "", fmt.Errorf("service.%s is not an integer literal: %s", name, p.Src(vs.Values[i]))
+					}
+				}
+			}
+		}
+	}
+	return "", fmt.Errorf("service.%s: no such constant", name)
+}
 
 type variant struct {
 	lean   string // Lean name prefix
@@ -34,13 +109,15 @@ var variants = []variant{
 
 func main() {
 	gen.Main("C12", func(c *gen.Ctx, l *gen.Lean) error {
-		p, err := c.Load("service")
+		p, err := loadRelayFiles(c.Repo)
 		if err != nil {
 			return err
 		}
-		if err := l.Consts(p, "defaultSendChannelCapacity"); err != nil {
+		capv, err := p.constInt("defaultSendChannelCapacity")
+		if err != nil {
 			return err
 		}
+		l.NatDef("defaultSendChannelCapacity", capv, "service.defaultSendChannelCapacity")
 		for _, v := range variants {
 			x := &extractor{p: p, v: v}
 			if err := x.run(); err != nil {
@@ -70,7 +147,7 @@ func main() {
 }
 
 type extractor struct {
-	p     *gen.Pkg
+	p     *srcPkg
 	v     variant
 	where string
 
